@@ -957,6 +957,15 @@ func checkStep3(c *Ctx, rule, pkg, label string) {
 				stuck = true
 			}
 		}
+		// …and the plot is started once per step: a second ws.Plot() for the same request without a new
+		// look at the state under the lock would plot a space whose stop was already answered (a stop reaches a
+		// plot only while the db is plotting)
+		key2 := label + ":spacePlotter:one-plot-per-step"
+		if r(plot) {
+			c.Bad(rule, key2, c.Pos(plot.Pos()), "ws.Plot() can be reached again from itself without a transition out of `plotting` in between (a retry loop around the plot): a stop that arrives between two attempts finds no running plot, is answered with success, and the space is plotted all the same")
+		} else {
+			c.OK(rule, key2, c.Pos(plot.Pos()), "ws.Plot() is not re-entered before the step's transition out of plotting")
+		}
 		if stuck {
 			c.Bad(rule, key, c.Pos(plot.Pos()), "after ws.Plot() the plotter can return without moving the space out of `plotting` (e.g. an early return on a plot error): the space stays plotting forever, later requests for it fail, and the next plot runs beside it")
 		} else {
